@@ -972,6 +972,22 @@ pub fn run(args: &Args) {
     }
     // 4. sequential histories over several managers
     cx.coq_budget = total_coq;
+    // 4a. every history of a fixed length over two OneWriteMultiRead TokenManagers and the alphabet
+    //     {acquire reader/writer through the cache on either manager, return / drop the oldest held
+    //      token, clear the cache, drop either manager}
+    {
+        let alphabet = [SOp::TmAcqR(0), SOp::TmAcqR(1), SOp::TmAcqW(0), SOp::TmAcqW(1), SOp::Ret(0, 0), SOp::Drop(0),
+                        SOp::Clear, SOp::DropMgr(0), SOp::DropMgr(1)];
+        let len = if args.thorough { 5 } else { 4 };
+        let total = alphabet.len().pow(len as u32);
+        for code in 0..total {
+            let mut ops = vec![SOp::NewTm(3), SOp::NewTm(3)];
+            let mut c = code;
+            for _ in 0..len { ops.push(alphabet[c % alphabet.len()]); c /= alphabet.len(); }
+            cx.seq(&ops, code % 3 == 0, code % 97 == 0);
+        }
+        cx.sum.dist_max("enumerated_sequential_histories", total as u64);
+    }
     let nseq = if args.thorough { 300000 } else { 5000 };
     for k in 0..nseq {
         if t0.elapsed().as_secs() > t_seq { cx.sum.dist("sequential_phase_cut_by_time"); break; }
